@@ -3,6 +3,7 @@
 mod corpus;
 mod framework;
 mod kernel;
+mod models;
 mod net;
 mod peers;
 mod rng;
